@@ -17,7 +17,9 @@ from harness import absval, core, repo
 
 EPOCH = datetime.datetime(1899, 12, 30)
 FORMS = ['=LEFT(A1,B1)', '=RIGHT(A1,B1)', '=MID(A1,C1,B1)', '=LEFT(A1)', '=RIGHT(A1)', '=SEARCH(D1,A1,B1)', '=SEARCH(D1,A1)',
-         '=LEFT(A1,B1)&MID(A1,B1+1,C1)', '=E1&F1', '=E1&F1&G1', '=CONCATENATE(E1,F1)', '=CONCATENATE(E1,F1,G1)', '=VALUE(A1)']
+         '=LEFT(A1,B1)&MID(A1,B1+1,C1)', '=E1&F1', '=E1&F1&G1', '=CONCATENATE(E1,F1)', '=CONCATENATE(E1,F1,G1)', '=VALUE(A1)',
+         # the empty text written as a LITERAL: joining with it still yields the text form of the other operand      (13..17)
+         '=E1&""', '=""&E1', '=""&E1&""', '=CONCATENATE(E1,"")', '=LEFT(E1&"",3)']
 _PROBE = None
 
 
@@ -145,6 +147,15 @@ def _row_job(rec):
                 o = obs_of(*r)
                 if not same(ideal, o):
                     bad.append((name, json.dumps(vs), '', [], ideal, o))
+            if len(vs) == 2 and vs[1]['k'] == 'text' and vs[1]['c'] == []:
+                # second operand = the empty text: the same result with "" typed into the formula
+                res = p.eval(ov, idxs=(13, 14, 15, 16, 17))
+                for name, r in zip(('AMP_EMPTY_LITERAL', 'EMPTY_LITERAL_AMP', 'EMPTY_AMP_EMPTY', 'CONCATENATE_EMPTY_LITERAL', 'LEFT3_OF_AMP_EMPTY'), res):
+                    n += 1
+                    o = obs_of(*r)
+                    want = ideal if name != 'LEFT3_OF_AMP_EMPTY' else {'k': 'text', 'c': rec['r'][:3]}
+                    if not same(want, o):
+                        bad.append((name, json.dumps(vs), '', [], want, o))
         elif f == 'VALUE':
             t = s_of(rec['t'])
             r = p.eval([(0, 0, 0, t)], idxs=(12,))[0]
